@@ -1,9 +1,13 @@
 #!/bin/bash
-# confirm and evaluate round-2 seeds for the given property ids
+# usage: roundN.sh <round> <property ids...>
+# confirms and evaluates the seeds that the round-<N> sub-agents left in /tmp/s<N>_<pid>/{a,b}; stores them as
+# seeded/<pid>r<N>{a,b} with the FIRST-RUN result of the quick check (first_run: true) - later re-evaluations by
+# bin/seed_matrix.sh keep that result under detected_by.first_run_result.
 cd /verif
+N="$1"; shift
 for pid in "$@"; do
   for s in a b; do
-    d=/tmp/s2_$pid/$s; sid=${pid}r2$s
+    d=/tmp/s${N}_$pid/$s; sid=${pid}r${N}$s
     [ -f $d/patch.diff ] || continue
     [ -d seeded/$sid ] && continue
     bin/confirm_seed.sh $d $sid $pid | tail -2
@@ -11,14 +15,14 @@ for pid in "$@"; do
     out=$(bin/seedtest.sh /verif/seeded/$sid/patch.diff $pid --tier quick 2>&1)
     rc=$(echo "$out" | grep -o "seedtest rc=[0-9]*" | tail -1 | cut -d= -f2)
     obs=$(echo "$out" | grep -A1 "^VIOLATION" | grep "obligation=" | sed 's/.*obligation=\([^ ]*\).*/\1/' | sort -u | head -6 | tr '\n' ' ')
-    python3 - "$sid" "$rc" "$obs" <<'PY'
+    python3 - "$sid" "$rc" "$obs" "$N" <<'PY'
 import json,sys
-sid,rc,obs=sys.argv[1:4]
+sid,rc,obs,n=sys.argv[1:5]
 p=f"/verif/seeded/{sid}/meta.json"; m=json.load(open(p))
-m["round"]=2
+m["round"]=int(n)
 m["detected_by"]={"check": sid[:3]+" quick", "exit_code": int(rc) if rc else None, "violating_obligations": obs.split(), "detected": rc=="1", "first_run": True}
 json.dump(m,open(p,"w"),indent=1)
-print("ROUND2", sid, "detected" if rc=="1" else "MISSED rc="+str(rc), obs)
+print(f"ROUND{n}", sid, "detected" if rc=="1" else "MISSED rc="+str(rc), obs)
 PY
   done
 done
